@@ -7,11 +7,14 @@ from .solutions import class_of, new_ev, init_self, method_term, OPAQUE_CIRCUIT,
 
 
 def run(rep, prog, tier):
+    from .hidden import no_hidden_state
+    rep.rule('R05.state', 'no hidden state in the anchored modules: no function writes a module-level object, no caching decorator / cached property')
+    no_hidden_state(rep, 'R05.state', prog, ['Network/NodalAnalysis/solution.py', 'Network/NodalAnalysis/bias_point_analysis.py', 'Circuit/solution.py'])
     rep.rule('R05.formula', 'network power = V*conj(I); DC = V*I; complex = 1/2*V*conj(I) for peak phasors else V*conj(I); time domain = v(t)*i(t); transient = product of the two series; frequency domain delegates per frequency; both factors are queried with the same identifier')
     rep.assume('get_voltage / get_current of the same object return the quantities checked under C01 / C02')
     envs = {'self': A('self'), 'id': A('id')}
     # ---- network solution
-    m, cls = class_of(prog, 'Network.NodalAnalysis.solution', 'NodalAnalysisSolution')
+    m, cls = class_of(prog, 'Network.NodalAnalysis.bias_point_analysis', 'NodalAnalysisBiasPointSolution')     # concrete class: overrides are seen
     ev = new_ev(prog)
     t, site = method_term(prog, ev, m, cls, 'get_power', [A('id')])
     sp = spec(ev, "self.get_voltage(id)*conj(self.get_current(id))", envs, m)
